@@ -53,7 +53,7 @@ PROPS = {
               "Non-trivial: >= 2 tuples created and at least one live tuple deleted; distinct = distinct (kind, type, arity, operation history)."),
         assumptions=[
             "the timestamp of a datum that was created but never updated is unspecified and not compared",
-            "tuple values are plain strings (separator/escape characters belong to C08)",
+            "the tuple universe is small (6 tuples per arity) but includes tuples that differ only in where a hyphen or backslash sits relative to a label boundary; the general injectivity statement over arbitrary strings stays with C08",
             "single client: the concurrent behaviour of the same API is C11's subject",
         ],
         expect_probes=["create", "delete_live", "delete_absent", "expire_absent", "wrong_arity", "remove_oldest", "update_with_zero_time"],
@@ -80,7 +80,8 @@ PROPS = {
         thorough=dict(runs=150000),
         rule=("each run = 1-3 glob patterns drawn from 8 overlapping ones (absolute and relative, '*', '?', directory wildcards, a path with '..'), "
               "an optional ignore regexp, a small real directory tree and a history of 1-8 actions {create, delete, rename to a free name, replace, "
-              "mkdir/rmdir, rename directory, a directory whose name matches a file pattern, poll}, each followed by an observation (one run in four "
+              "delete + stream poll + re-create between two pattern polls, mkdir/rmdir, rename directory, a directory whose name matches a file pattern, "
+              "poll}, each followed by an observation (one run in four "
               "the patterns also match an untailable entry, a symlink to a device node); then a unique "
               "probe line is appended to every file of the tree. All interleavings of the pattern pollers (one per pattern, racing to TailPath the same "
               "path), streams and forwarders are sampled by the seeded scheduler. Non-trivial: >= 2 files tailed at once and the tree changed; "
@@ -90,7 +91,7 @@ PROPS = {
             "'matches a pattern' is path/filepath.Match on the absolute path (the standard library's glob definition)",
             "renaming a file onto an existing tailed path is a rotation of that path (C16) and is not generated here",
         ],
-        expect_probes=["two_or_more_tailed", "create", "delete", "rename", "replace", "directory_change", "directory_matching_pattern"],
+        expect_probes=["two_or_more_tailed", "create", "delete", "rename", "replace", "recreate_between_pattern_polls", "directory_change", "directory_matching_pattern"],
         real=["tailer.Tailer (AddPattern, Ignore, pollLogPattern, doPatternGlob, TailPath, forwarder/removal)", "logstream.fileStream", "kernel filesystem", "log_count expvar"],
         stub=["waker.Waker (simulated ticks)"],
     ),
@@ -137,13 +138,13 @@ PROPS = {
         thorough=dict(runs=120000),
         rule=("each run = a real program directory with up to three .mtail files, a dot-file, a notes.txt, *.mtail.bak / *.mtail.txt names, a "
               "subdirectory holding a .mtail file and optionally a directory *named* d.mtail, and a history of 1-8 actions {write valid, write broken, "
-              "restore, remove, rename (to eligible and ineligible names), touch, reload only}, each followed by LoadAllPrograms — one time in three "
+              "restore, remove, put the removed file back byte-identical, rename (to eligible and ineligible names), touch, reload only}, each followed by LoadAllPrograms — one time in three "
               "while a feeder streams lines. After each reload one line is fed at quiescence: exactly the (file, version) counters of the model's "
               "running set move by one, and prog_loads/unloads/load_errors equal the events. With lines flowing, programs running before and after "
               "the reload must count every line exactly once. Non-trivial: the directory changed; distinct = distinct (history, schedule signature)."),
         assumptions=["every version of a file counts into its own label of one metric declared identically by all versions, so counts survive reloads",
                      "symlinks and unreadable files are not generated"],
-        expect_probes=["edit_valid", "edit_broken", "restore", "remove", "rename", "rename_to_ineligible", "touch", "reload_while_lines_flow", "directory_named_like_program"],
+        expect_probes=["edit_valid", "edit_broken", "restore", "remove", "put_back_identical", "rename", "rename_to_ineligible", "touch", "reload_while_lines_flow", "directory_named_like_program"],
         real=["runtime.Runtime (LoadAllPrograms, LoadProgram, CompileAndRun, UnloadProgram, fan-out)", "vm.VM", "compiler", "kernel filesystem", "prog_* expvars"],
         stub=[],
     ),
@@ -170,13 +171,13 @@ PROPS = {
         quick=dict(runs=3000),
         thorough=dict(runs=100000),
         rule=("each run = an observed program (3 variants: scalar + dimensioned + gauge, hidden metric, runtime-error maker) loaded first and never "
-              "touched, 4-33 lines, and 1-6 loader operations on up to three other program files drawn from 8 kinds (same name+kind, same name with "
-              "float type, same name with other keys, same-name gauge, kind conflict, broken, runtime-error maker, hidden same name) — add, replace, "
+              "touched, 4-33 lines, and 1-6 loader operations on up to three other program files drawn from 9 kinds (same name+kind, same name with "
+              "float type, same name with other keys, same-name gauge, kind conflict, broken, runtime-error maker, hidden same name, hidden variable of another kind) — add, replace, "
               "remove, re-add — half of them while the lines flow. Oracle: the observed program's series in the real Prometheus exposition equal "
               "those of a solo reference run on the same lines (second runtime in the same bubble); the scrape as a whole keeps working; valid "
               "non-conflicting programs are never refused; no datum is shared between programs. Non-trivial: a load overlapped line processing."),
         assumptions=["OmitProgLabel is not used (same-named metrics then collide by construction)", "timestamps are not compared (values only)"],
-        expect_probes=["load_overlapped_lines", "other_same-name-same-kind", "other_same-name-float", "other_same-name-other-keys", "other_kind-conflict", "other_broken", "other_runtime-errors", "other_hidden-same-name", "other_gauge-same-name"],
+        expect_probes=["load_overlapped_lines", "other_same-name-same-kind", "other_same-name-float", "other_same-name-other-keys", "other_kind-conflict", "other_broken", "other_runtime-errors", "other_hidden-same-name", "other_hidden-other-kind", "other_gauge-same-name"],
         real=["runtime.Runtime", "metrics.Store", "vm.VM (one goroutine per program)", "exporter.Exporter (Collect, Write)", "prometheus.Registry.Gather + expfmt"],
         stub=[],
     ),
@@ -254,8 +255,8 @@ PROPS = {
         level="exploration",
         quick=dict(runs=20000),
         thorough=dict(runs=600000),
-        rule=("each run = a program assembled from 3-8 of 15 state-stressing rules (strptime under two layouts reading the same strings differently, "
-              "syslog layout, constant strptime, settime, timestamp(), strtol and division that fail on some inputs, stop, a rule after stop, del, del after, "
+        rule=("each run = a program assembled from 3-8 of 17 state-stressing rules (strptime under two layouts reading the same strings differently, "
+              "syslog layout, constant strptime, strptime followed by a failing conversion or by stop on the same line, settime, timestamp(), strtol and division that fail on some inputs, stop, a rule after stop, del, del after, "
               "else/otherwise, capture reuse into a text metric), a history of 0-12 lines (one in three an exact repeat of an earlier line) with clock "
               "advances and jumps in between, and a final line L. Twin oracle: the VM that processed the history and a freshly compiled copy loaded with the "
               "same metric contents both process L at the same simulated instant; all metrics (tuples, values, timestamps, expiry), the runtime-error "
